@@ -9,16 +9,21 @@ import netgen as NG
 
 RULE = ("boundary stream of random well-formed models: forcing series that are all zero, start dry, have dry spells or bursts; "
         "populations and demands of zero; empty and full stores and service reservoirs; every node class of the generator; "
-        "run in exact arithmetic (any exception is a violation) and again in floating point with a scan for non-finite "
+        "run in exact arithmetic (any exception is a violation); a floating-point stream adds growing surfaces with crop calendars and nutrient pools (incl. nutrient-free soil), the default pollutant set with river biochemistry, start dates around month / year / leap-year ends, and a scan for non-finite "
         "values. non-trivial = distinct model with >= 4 nodes")
 
 
 def float_pass(rep, thorough):
-    n = 300 if thorough else 40
+    n = 600 if thorough else 90
     viol = 0
     raised = 0
-    for seed, size in net_check.gen_cases("net_C12_float", n, 5, {"stress": True}):
-        cfg = NG.gen_model(random.Random(seed), ndates=5, size=size, opts={"stress": True})
+    for i, (seed, size) in enumerate(net_check.gen_cases("net_C12_float", n, 5, {"stress": True})):
+        r0 = random.Random(seed)
+        # growing surfaces (crop calendars, nutrient pools incl. nutrient-free soil), default pollutants with river
+        # biochemistry, and runs that cross month / year / leap-year boundaries
+        opts = {"stress": True, "growing": size in ("land", "full"), "start": r0.choice(NG.STARTS)}
+        cfg = NG.gen_model(random.Random(seed), ndates=5, polset=r0.choice(["default", "default", "simple", "four"]),
+                           size=size if i % 3 else "land", opts=opts)
         mon, model, err, out = MN.run_cfg(cfg, "float", pids=("C12",))
         rep.add_eval(("net-float", seed), nontrivial=len(cfg["nodes"]) >= 4)
         raised += int(err is not None)
